@@ -159,12 +159,22 @@ func classify(err error) (class string, code int, data string) {
 	return "error", 0, err.Error()
 }
 
+var errOwnReason = errors.New("the caller's own reason")
+
 func (w *cworld) ctxFor(st CStep) (context.Context, context.CancelFunc) {
 	var ctx context.Context
 	var cancel context.CancelFunc
-	switch st.Ctx {
-	case "deadline":
+	// every third operation uses a context that carries a cause of the caller's
+	// own: the operation must still end with the context's error, not the cause
+	withCause := st.K%3 == 0
+	switch {
+	case st.Ctx == "deadline" && withCause:
+		ctx, cancel = context.WithTimeoutCause(context.Background(), time.Duration(st.D)*time.Millisecond, errOwnReason)
+	case st.Ctx == "deadline":
 		ctx, cancel = context.WithTimeout(context.Background(), time.Duration(st.D)*time.Millisecond)
+	case withCause:
+		c, cc := context.WithCancelCause(context.Background())
+		ctx, cancel = c, func() { cc(errOwnReason) }
 	default:
 		ctx, cancel = context.WithCancel(context.Background())
 	}
